@@ -777,6 +777,10 @@ PROP_FRAMES = {
             ('photutils/profiles/radial_profile.py', 'RadialProfile.__init__'),
             ('photutils/profiles/curve_of_growth.py', 'CurveOfGrowth.__init__')],
     'C20': [('photutils/isophote/ellipse.py', 'Ellipse.fit_image')],
+    # C09 "calling the same ... Ellipse object repeatedly with different inputs": a call must not
+    # leave anything behind in the object's (or the caller's) geometry
+    'C09': [('photutils/isophote/ellipse.py', 'Ellipse.fit_image'),
+            ('photutils/isophote/ellipse.py', 'Ellipse.fit_isophote')],
     'C02': [('photutils/aperture/photometry.py', 'aperture_photometry'),
             ('photutils/aperture/core.py', 'PixelAperture.do_photometry'),
             ('photutils/aperture/core.py', 'PixelAperture.area_overlap')],
